@@ -1588,6 +1588,9 @@ int yylex () {
                     if (isalpha (c) || c == '_')
                       {
                         function_flag = 1;
+#ifdef NEOLITH_VERIF
+                        VERIF_CTRACE ("fnflag.set", function_flag, 1);
+#endif
                         goto parse_identifier;
                       }
 
@@ -2632,6 +2635,7 @@ void start_new_file (int fd, const char* pre_text) {
 #ifdef NEOLITH_VERIF
   VERIF_CTRACE ("lex.start", verif_inc_depth (), MAX_INCLUDE_DEPTH - 1);
   VERIF_CTRACE ("lex.start.if", verif_if_depth (), verif_if_depth ());
+  VERIF_CTRACE ("lex.start.fnflag", function_flag, 0);
 #endif
   current_line = 1;
   current_line_base = 0;
